@@ -485,6 +485,19 @@ func buildOptTargets() {
 		sortStrings(flags)
 		for _, f := range flags {
 			optTargets = append(optTargets, optTarget{c, "value", f}, optTarget{c, "present", f})
+			if f == "-q" || f == "-n" {
+				// repeatable options: the same values in another order, two values fused into one
+				optTargets = append(optTargets, optTarget{c, "permute", f}, optTarget{c, "merge", f})
+			}
+		}
+		for i := range posPools[c] {
+			optTargets = append(optTargets, optTarget{c, "pos", fmt.Sprint(i)})
+		}
+		if c == "extract" || c == "select" {
+			optTargets = append(optTargets, optTarget{c, "permute-pos", ""}, optTarget{c, "extra-pos", ""})
+		}
+		if !tableOut[c] {
+			optTargets = append(optTargets, optTarget{c, "format", ""})
 		}
 	}
 }
@@ -544,6 +557,58 @@ func genOptionPair(r *core.RNG, sc *cliScenario) *cliScenario {
 			b.Opts = append(b.Opts[:i], b.Opts[i+1:]...)
 		} else {
 			b.Opts = append(b.Opts, []string{t.flag, neighbourOf(r, optPools[t.cmd][t.flag], optDefaults[t.flag])})
+		}
+	case "permute", "merge":
+		pool := optPools[t.cmd][t.flag]
+		v1, v2 := pickS(r, pool), pickS(r, pool)
+		for try := 0; v2 == v1 && try < 10; try++ {
+			v2 = pickS(r, pool)
+		}
+		if i := find(&a); i >= 0 {
+			a.Opts[i] = []string{t.flag, v1, v2}
+		} else {
+			a.Opts = append(a.Opts, []string{t.flag, v1, v2})
+		}
+		b = a.clone()
+		i := find(&b)
+		if t.kind == "permute" {
+			b.Opts[i] = []string{t.flag, v2, v1}
+		} else {
+			b.Opts[i] = []string{t.flag, v1 + pickS(r, []string{",", ";", " ", "|", ":"}) + v2}
+		}
+	case "pos":
+		var idx int
+		fmt.Sscan(t.flag, &idx)
+		pools := posPools[t.cmd]
+		if len(b.Pos) == len(pools) {
+			for try := 0; try < 10; try++ {
+				nv := neighbourOf(r, pools[idx], b.Pos[idx])
+				if nv != b.Pos[idx] {
+					b.Pos[idx] = nv
+					break
+				}
+			}
+		}
+	case "permute-pos", "extra-pos":
+		pool := locators
+		if t.cmd == "select" {
+			pool = selectors
+		}
+		p1, p2 := pickS(r, pool[:len(pool)-1]), pickS(r, pool[:len(pool)-1])
+		for try := 0; p2 == p1 && try < 10; try++ {
+			p2 = pickS(r, pool[:len(pool)-1])
+		}
+		a.Pos = []string{p1, p2}
+		b = a.clone()
+		if t.kind == "permute-pos" {
+			b.Pos = []string{p2, p1}
+		} else {
+			b.Pos = []string{p1}
+		}
+	case "format":
+		b.Fmt = pickS(r, append(formats, ""))
+		for try := 0; b.Fmt == a.Fmt && try < 10; try++ {
+			b.Fmt = pickS(r, append(formats, ""))
 		}
 	case "value":
 		pool := optPools[t.cmd][t.flag]
@@ -761,7 +826,7 @@ func genHistory(r *core.RNG, tier string) *cliScenario {
 		sc.Steps = append(sc.Steps, cliStep{Run: st}, cliStep{Edit: &editStep{File: in, Edit: editSpec{Op: "mutate-tail", At: r.Intn(300)}}}, cliStep{Run: st})
 		return sc
 	}
-	if r.Chance(1, 4) {
+	if r.Chance(1, 3) {
 		// option coverage: one (subcommand, option) pair drawn uniformly from all
 		// of them - so that a command with ten options gets ten times the turns
 		// of a command with one - and a history that differs in exactly that option
